@@ -150,6 +150,9 @@ fn fr(a: &[&str]) -> String {
     }
 }
 
+fn hash_of<T: std::hash::Hash>(x: &T) -> u64 { use std::hash::Hasher; let mut h = std::collections::hash_map::DefaultHasher::new(); x.hash(&mut h); h.finish() }
+fn sg(s: &str) -> Sign { match s { "-" => Sign::Minus, "0" => Sign::NoSign, _ => Sign::Plus } }
+
 fn run(a: &[&str]) -> String {
     let op = a[0];
     if op == "sc" { return sc(a); }
@@ -194,6 +197,34 @@ fn run(a: &[&str]) -> String {
         "uchecked_div_euclid" => opt(pu(a[1]).checked_div_euclid(&pu(a[2])), fu),
         "uchecked_rem_euclid" => opt(pu(a[1]).checked_rem_euclid(&pu(a[2])), fu),
         "uchecked_div_rem_euclid" => opt(pu(a[1]).checked_div_rem_euclid(&pu(a[2])), |p: &(BigUint, BigUint)| format!("{} {}", fu(&p.0), fu(&p.1))),
+        // hashing / partial order after different histories (the second operand is rebuilt through a detour that leaves spare capacity)
+        "uhash_eq" => { let x = pu(a[1]); let big = BigUint::one() << 300usize; let y = (pu(a[2]) + &big) - &big; format!("{} {:?}", hash_of(&x) == hash_of(&y), x.partial_cmp(&y)) }
+        "ihash_eq" => { let x = pi(a[1]); let big = BigInt::one() << 300usize; let y = (pi(a[2]) - &big) + &big; format!("{} {:?}", hash_of(&x) == hash_of(&y), x.partial_cmp(&y)) }
+        "udefault" => fu(&BigUint::default()),
+        "idefault" => fi(&BigInt::default()),
+        "uchecked_add" => opt(num_traits::CheckedAdd::checked_add(&pu(a[1]), &pu(a[2])), fu),
+        "uchecked_mul" => opt(num_traits::CheckedMul::checked_mul(&pu(a[1]), &pu(a[2])), fu),
+        "ichecked_add" => opt(pi(a[1]).checked_add(&pi(a[2])), fi),
+        "ichecked_sub" => opt(pi(a[1]).checked_sub(&pi(a[2])), fi),
+        "ichecked_mul" => opt(pi(a[1]).checked_mul(&pi(a[2])), fi),
+        "ichecked_add_t" => opt(num_traits::CheckedAdd::checked_add(&pi(a[1]), &pi(a[2])), fi),
+        "ichecked_sub_t" => opt(num_traits::CheckedSub::checked_sub(&pi(a[1]), &pi(a[2])), fi),
+        "ichecked_mul_t" => opt(num_traits::CheckedMul::checked_mul(&pi(a[1]), &pi(a[2])), fi),
+        "usum" => { let v: Vec<BigUint> = a[1..].iter().map(|x| pu(x)).collect(); fu(&v.iter().sum::<BigUint>()) }
+        "uproduct" => { let v: Vec<BigUint> = a[1..].iter().map(|x| pu(x)).collect(); fu(&v.iter().product::<BigUint>()) }
+        "isum" => { let v: Vec<BigInt> = a[1..].iter().map(|x| pi(x)).collect(); fi(&v.iter().sum::<BigInt>()) }
+        "iproduct" => { let v: Vec<BigInt> = a[1..].iter().map(|x| pi(x)).collect(); fi(&v.into_iter().product::<BigInt>()) }
+        "ito_bytes_le" => { let (s, b) = pi(a[1]).to_bytes_le(); format!("{:?} {:?}", s, b) }
+        "ito_bytes_be" => { let (s, b) = pi(a[1]).to_bytes_be(); format!("{:?} {:?}", s, b) }
+        "ifrom_bytes_le" => { let d: Vec<u8> = a[2..].iter().map(|x| u8::from_str_radix(x, 16).unwrap()).collect(); fi(&BigInt::from_bytes_le(sg(a[1]), &d)) }
+        "ifrom_bytes_be" => { let d: Vec<u8> = a[2..].iter().map(|x| u8::from_str_radix(x, 16).unwrap()).collect(); fi(&BigInt::from_bytes_be(sg(a[1]), &d)) }
+        "ito_u32_digits" => { let (s, d) = pi(a[1]).to_u32_digits(); format!("{:?} {:x?}", s, d) }
+        "ito_u64_digits" => { let (s, d) = pi(a[1]).to_u64_digits(); format!("{:?} {:x?}", s, d) }
+        "uiter64_nth" => { let x = pu(a[1]); let mut it = x.iter_u64_digits(); let k = pu64(a[2]) as usize; let r = it.nth(k); format!("{:x?} {} {:x?}", r, it.len(), it.next()) }
+        "ibits" => format!("{}", pi(a[1]).bits()),
+        "iis_even" => format!("{} {}", pi(a[1]).is_even(), pi(a[1]).is_odd()),
+        "idivides" => { #[allow(deprecated)] let r = pi(a[1]).divides(&pi(a[2])); format!("{}", r) }
+        "iextended_gcd_lcm" => { let (e, l) = pi(a[1]).extended_gcd_lcm(&pi(a[2])); format!("{} {} {} {}", fi(&e.gcd), fi(&e.x), fi(&e.y), fi(&l)) }
         "ucmp" => format!("{:?}", pu(a[1]).cmp(&pu(a[2]))),
         "ueq" => format!("{}", pu(a[1]) == pu(a[2])),
         "umodpow" => fu(&pu(a[1]).modpow(&pu(a[2]), &pu(a[3]))),
